@@ -443,12 +443,15 @@ def execute(plan):
         wa = np.asarray(want, float)
         mag = float(np.max(np.abs(wa))) if wa.size else 0.0
         ok, d, why = compare(np.asarray(got.value), wa, RTOL, ATOL * min(1.0, mag))
+        if ok and mag > 0 and np.isfinite(d):
+            margin[0] = max(margin[0], d / (RTOL * mag + ATOL * min(1.0, mag)))
         if not ok:
             raise Violation(ID, "differs_from_model",
                             f"{name} {where}: {why} (estimator vs. spec model)",
                             query=name, where=where, **detail)
 
     obs_now = [True]
+    margin = [0.0]      # worst observed deviation from the model, in units of the tolerance
 
     def battery(cs, where, force=False):
         if not (force or obs_now[0]):
@@ -684,7 +687,7 @@ def execute(plan):
             tuple(sorted({cs.model.b.shape[0] > 1 for cs in states.values()})),
             tuple(sorted(trigrams))[:6], adds, foreign, tuple(sorted(cov_faults)))]
     return {"violation": violation, "digest": log.digest(), "steps": steps, "counters": counters,
-            "cov": cov, "nontrivial": (adapt + rereg) > 0}
+            "cov": cov, "nontrivial": (adapt + rereg) > 0, "margin": margin[0]}
 
 
 def _kclass(M):
@@ -781,7 +784,9 @@ def extra_evidence(results):
             if k.startswith("crash:"):
                 pts[k[6:]] = pts.get(k[6:], 0) + v
     n_exh = sum(1 for r in results if r.get("mode") == "exh")
+    worst = max([r.get("margin", 0.0) for r in results] or [0.0])
     return {"distinct_crash_points_hit": len(pts),
+            "worst_deviation_from_model_in_units_of_tolerance": float(f"{worst:.3g}"),
             "exhaustive_short_histories": {
                 "alphabet": len(c14.EXH_ALPHABET), "executed": n_exh,
                 "note": "every valid sequence over the 15-variant registration alphabet (from an "
